@@ -3,7 +3,7 @@
    included) are both free. *)
 From Coq Require Import ZArith List.
 From Coq Require Import Lia.
-From Arsenal Require Import Util Bits Gran Tlsf TlsfStep TlsfProps.
+From Arsenal Require Import Util Bits Gran Tlsf TlsfStep TlsfProps SizeClass TlsfInv2 TlsfStep2 TlsfProps2 GranInv GranTlsf.
 From Arsenal Require Linear LinearInv LinearAlloc LinearFree LinearStep LinearSwap LinearVisit LinearProps.
 Open Scope Z_scope.
 
@@ -14,6 +14,31 @@ Theorem C18_tlsf_no_adjacent_free : forall h gr size ops,
                 b_free a = true -> b_free b = false.
 Proof. exact tlsf_no_adjacent_free. Qed.
 Print Assumptions C18_tlsf_no_adjacent_free.
+
+(* Second part, TLSF: a reachable state without live blocks is literally the freshly initialised
+   block (every field: chain, null block, free lists, both bitmaps, counters, granularity table),
+   so every future operation sequence is answered exactly as by a fresh block; Clear gives the same
+   state.  With vam's handler this uses the page-table invariant (kinds 1..5, granularity <= 64 KiB). *)
+Theorem C18_tlsf_fake_empty_is_init : forall gr size ops,
+  cfg2_ok gr size -> Forall op_ok ops ->
+  let t := run (tlsf_init HFake gr size) ops in
+  live t = [] -> t = tlsf_init HFake gr size /\ forall ops', run t ops' = run (tlsf_init HFake gr size) ops'.
+Proof. exact tlsf_fake_empty_is_init. Qed.
+Print Assumptions C18_tlsf_fake_empty_is_init.
+
+Theorem C18_tlsf_vam_empty_is_init : forall gr size ops,
+  cfg2_ok gr size -> 1 <= gr <= 65536 -> Forall op_ok ops -> Forall op_kind_ok ops ->
+  let t := run (tlsf_init HVam gr size) ops in
+  live t = [] -> t = tlsf_init HVam gr size /\ forall ops', run t ops' = run (tlsf_init HVam gr size) ops'.
+Proof. exact tlsf_vam_empty_is_init. Qed.
+Print Assumptions C18_tlsf_vam_empty_is_init.
+
+Theorem C18_tlsf_clear_is_fresh : forall h gr size ops,
+  cfg2_ok gr size -> Forall op_ok ops ->
+  let t := run (tlsf_init h gr size) ops in
+  tlsf_clear t = fresh_with (gran_clear (t_gran t)) size.
+Proof. exact tlsf_reach_clear_is_fresh. Qed.
+Print Assumptions C18_tlsf_clear_is_fresh.
 
 Module LinearHalf.
 Import Linear LinearInv LinearAlloc LinearFree LinearStep LinearSwap LinearVisit LinearProps.
